@@ -530,7 +530,9 @@ class _CompressionMiddleware:
                 title="Unsupported Content-Encoding",
                 description=f"Content-Encoding {content_encoding!r} is not supported by this server",
             )
-        if req_enc not in self._decode:
+        # ``identity`` is a valid coding that needs no decoder, so it can be
+        # neither unknown nor disabled: the body passes through (size-capped).
+        if req_enc is not Encoding.IDENTITY and req_enc not in self._decode:
             raise falcon.HTTPUnsupportedMediaType(
                 title="Unsupported Content-Encoding",
                 description=(
